@@ -180,6 +180,18 @@ def run(ctx):
     tmpl = [n for n in gd.nodes(ast.Subscript) if unparse(n.value) == 'self.sparse_features.cols']
     ctx.check(bool(tmpl) and 'self.spike_templates[' in unparse(tmpl[0].slice), 'C09.U4', gd, tmpl[0] if tmpl else 'get_depths', 'the channels of a spike are those of its TEMPLATE in the feature table',
               'the channels of a spike are not looked up through its template')
+    # the normaliser of a mean / weighted mean is used as computed: patching it (e.g. norm[norm == 0] = 1) turns the NaN of an id / spike
+    # without weight into a finite, wrong value
+    for fn in (gd, gat, am):
+        divisors = set()
+        for b in fn.nodes(ast.BinOp):
+            if isinstance(b.op, ast.Div) and isinstance(b.right, ast.Name):
+                divisors.add(b.right.id)
+        patched = [x for x in fn.nodes(ast.Assign) if isinstance(x.targets[0], ast.Subscript) and isinstance(x.targets[0].value, ast.Name) and
+                   x.targets[0].value.id in divisors and isinstance(x.value, ast.Constant) and not isinstance(x.targets[0].slice, ast.Call)]
+        real = [x for x in patched if not ('isnan' in unparse(x.targets[0].slice))]
+        ctx.check(not real, 'C09.U4' if fn is gd else 'C09.U1', fn, real[0] if real else fn.name + ' normaliser', '%s: the normaliser of the mean is used as computed' % fn.name,
+                  '`%s` overwrites entries of the normaliser before the division: ids / spikes without any weight get a finite value instead of NaN' % (unparse(real[0]) if real else ''))
     if nrep == 0:
         ctx.holds('C09.A0', gat, 'no index-space / extent / dimension conflict in get_amplitudes_true (2 modes), _amplitudes, _channels, _waveform_durations, templates_probes, get_depths', 'summaries')
 
